@@ -194,9 +194,6 @@ def check_case(case, info=None):
                 else:
                     keys = ('word', 'pos', 'entity', 'lemma', 'chunk')
                     for (i, j, orig), r in zip(flat, rs):
-                        fields = dict(kv.split('=', 1) for kv in str(r.name).split('_') if '=' in kv)
-                        if fields.get('sentence') != str(i) or fields.get('id') != str(j):
-                            bad('xml/numbering', f'tree {j} of sentence {i} read under name {r.name!r}')
                         want = mt.shape(orig, leaf=lambda t: tuple(t.token.get(k) for k in keys))
                         got = mt.shape(r.tree, leaf=lambda t: tuple(t.token.get(k) for k in keys))
                         if want != got:
@@ -251,15 +248,19 @@ def check_case(case, info=None):
                     continue
                 iso_fails(built, d, bad, lambda dd: dd[3] if dd[0] == 'U' else dd[4])
             toks = sent_el.xpath('./tokens/token')
+            originals = [copy.deepcopy(tk) for tk in toks]
             before = [(tk.get('surf'), tk.get('base')) for tk in toks]
             try:
-                ret = normalize_tokens(toks)
-                if ret is not None and len(ret) == len(toks):
+                tokens_el = sent_el.find('./tokens')
+                ret = normalize_tokens(tokens_el if tokens_el is not None else toks)
+                if ret is not None and not isinstance(ret, (str, bytes)) and len(ret) == len(toks):
                     toks = list(ret)        # (normalised in place or handed back: either way these are the results)
+                else:
+                    toks = sent_el.xpath('./tokens/token')
             except Exception as ex:
                 bad(f'normalize/raises/{type(ex).__name__}', f'{type(ex).__name__}: {ex}')
                 continue
-            for (surf0, base0), tk in zip(before, toks):
+            for (surf0, base0), tk, orig_tk in zip(before, toks, originals):
                 for attr, orig_v in (('surf', surf0), ('base', base0 if base0 != '*' else surf0)):
                     v = tk.get(attr)
                     if v is None or orig_v is None:
@@ -269,11 +270,14 @@ def check_case(case, info=None):
                     if not v.startswith('_') or any(c in v for c in NORM_CHARS) or v == '&':
                         bad('normalize/punctuation', f'{attr} {orig_v!r} normalised to {v!r}')
                     # pure function of the token: the same text normalises the same way on its own
-                    el = etree.Element('token')
-                    el.set(attr, orig_v)
-                    ret1 = normalize_tokens([el])
-                    if ret1 is not None and len(ret1) == 1:
+                    holder = etree.Element('tokens')
+                    el = copy.deepcopy(orig_tk)
+                    holder.append(el)
+                    ret1 = normalize_tokens(holder)
+                    if ret1 is not None and not isinstance(ret1, (str, bytes)) and len(ret1) == 1:
                         el = ret1[0]
+                    else:
+                        el = holder[0]
                     if el.get(attr) != v:
                         bad('normalize/not-pure', f'{attr} {orig_v!r} gives {v!r} in the sentence and {el.get(attr)!r} alone')
         # ---- what the printer hands to ccg2lambda
@@ -281,7 +285,8 @@ def check_case(case, info=None):
 
         class _Fake:
             @staticmethod
-            def parse(jigg_xml, templates, **kw):
+            def parse(*a, **kw):
+                jigg_xml = a[0] if a else next(v for k_, v in kw.items() if k_ in ('ccg', 'jigg_xml', 'xml', 'root'))
                 captured.append(jigg_xml)
                 n = [len(s.xpath('./ccg')) for s in jigg_xml.xpath('//sentence')]
                 return b'<root/>', [['formula'] * k for k in n]
@@ -292,8 +297,13 @@ def check_case(case, info=None):
             printer_mod.ccg2lambda = _Fake
         try:
             home = importlib.import_module('depccg.semantics.ccg2lambda.parse')
-            saved.append((home, 'parse', home.parse))
+            real_parse = home.parse
+            saved.append((home, 'parse', real_parse))
             home.parse = _Fake.parse          # (a printer that imports the function lazily finds it here)
+            for name_, val_ in list(vars(printer_mod).items()):
+                if val_ is real_parse:        # (... and one that bound the function itself under some name, here)
+                    saved.append((printer_mod, name_, val_))
+                    setattr(printer_mod, name_, _Fake.parse)
         except Exception:
             pass
         try:
